@@ -117,6 +117,12 @@ pub(crate) struct LiveEvents<'a> {
 
     /// Error reference that is checked at the end of parsing.
     error: Rc<RefCell<Option<std::io::Error>>>,
+    /// Kind and message of an I/O failure that has already been reported once.
+    ///
+    /// The reader cannot recover from a failed read, so the failure stays in force: a caller
+    /// that drops the first report (for example a lenient `Deserialize` impl) must not get a
+    /// value built from the truncated input afterwards.
+    io_failure: RefCell<Option<(std::io::ErrorKind, String)>>,
 }
 
 /// A single alias-replay stack frame (one active `*alias` expansion).
@@ -191,6 +197,7 @@ impl<'a> LiveEvents<'a> {
             seen_doc_end: false,
 
             error,
+            io_failure: RefCell::new(None),
         }
     }
 }
@@ -240,6 +247,7 @@ impl<'a> LiveEvents<'a> {
 
             // Error field is provided but for string, nothing is ever reported
             error: Rc::new(RefCell::new(None)),
+            io_failure: RefCell::new(None),
         }
     }
 
@@ -716,10 +724,15 @@ impl<'a> LiveEvents<'a> {
     #[cold]
     fn io_error(&self) -> Result<(), Error> {
         if let Some(error) = self.error.take() {
-            Err(Error::IOError { cause: error })
-        } else {
-            Ok(())
+            *self.io_failure.borrow_mut() = Some((error.kind(), error.to_string()));
+            return Err(Error::IOError { cause: error });
         }
+        if let Some((kind, msg)) = self.io_failure.borrow().as_ref() {
+            return Err(Error::IOError {
+                cause: std::io::Error::new(*kind, msg.clone()),
+            });
+        }
+        Ok(())
     }
 }
 
